@@ -351,6 +351,16 @@ def check_int(case, ctx):
     adjoint_check(ctx, Ax, wts, AHy, ybar, 'sum_of_2d_modes_backprop', '%d modes of shape %s' % (k, shape))
     Ax2 = ctx.call(poly.sum_of_2d_modes, list(modes), list(wts))
     U.check_close(Ax2, Ax, 1e-13, 'sum_of_2d_modes:list-input', 'list of modes != array of modes')
+    # complex weights of real modes (a complex field as a modal sum) and a complex upstream gradient, with the modes as array, list or tuple of 2-D arrays
+    # ("a list of length k with elements of shape (m,n) works")
+    wts_c = wts + 1j * r.uniform(-1, 1, k)
+    ybar_c = ybar + 1j * U.relayout(r.uniform(-1, 1, shape), lay)
+    for form, mm in (('array', modes), ('list', [m_ for m_ in modes]), ('tuple', tuple(m_ for m_ in modes))):
+        Ax_c = ctx.call(poly.sum_of_2d_modes, mm, wts_c)
+        AHy_c = ctx.call(poly.sum_of_2d_modes_backprop, mm, ybar_c)
+        adjoint_check(ctx, Ax_c, wts_c, AHy_c, ybar_c, 'sum_of_2d_modes_backprop:complex:modes-as-' + form, '%d real modes of shape %s given as %s, complex weights and gradient' % (k, shape, form))
+        AHy_r = ctx.call(poly.sum_of_2d_modes_backprop, mm, ybar)
+        U.check_close(AHy_r, AHy, 1e-12, 'sum_of_2d_modes_backprop:modes-as-' + form, 'modes given as %s' % form, atol=1e-300)
 
 
 # ---- softmax family ------------------------------------------------------------------------------------------------
@@ -478,6 +488,21 @@ def check_act(case, ctx):
                 '%s(a=%r,x0=%r).backprop is not finite where forward is (x in [%.4g, %.4g])' % (case['node'], case['a'], case['x0'], x.min(), x.max()))
     U.check_close(np.asarray(got)[ok], np.asarray(want)[ok], 1e-10, case['node'] + '.backprop',
                   '%s(a=%r,x0=%r,y0=%r) derivative' % (case['node'], case['a'], case['x0'], case['y0']), atol=1e-13 * max(1.0, abs(float(case['a']))))
+    if not extreme:
+        # an optimiser's loop on one node and one array object: forward(x), the array updated in place (x -= step), the slope continued
+        # (node.a *= 1.5, public attribute), then backprop(x): the derivative at the *current* point with the *current* parameters
+        xs = x.copy()
+        ctx.call(n.forward, xs)
+        xs -= 0.37
+        if case['seed'] % 2:
+            n.a = n.a * 1.5
+            ctx.label('slope-continued-between-forward-and-backprop')
+        got2 = np.asarray(ctx.call(n.backprop, xs))
+        want2 = np.imag(ctx.call(n.forward, xs + 1j * 1e-30)) / 1e-30
+        ok2 = np.isfinite(want2)
+        U.check_close(got2[ok2], want2[ok2], 1e-10, case['node'] + '.backprop:after-forward-on-the-same-array',
+                      '%s(a=%r,x0=%r,y0=%r): backprop(x) after forward(x) and an in-place update of x' % (case['node'], n.a, case['x0'], case['y0']),
+                      atol=1e-13 * max(1.0, abs(float(n.a))))
 
 
 # ---- cost functions ---------------------------------------------------------------------------------------------------
